@@ -199,7 +199,12 @@ def i6_corpus(seed, tier):
                 muts.add(s[:k] + s[k + 1:])
                 muts.add(s[:k] + chr(97 + rnd.randrange(nT)) + s[k:])
                 muts.add(s[:k] + chr(97 + rnd.randrange(nT)) + s[k + 1:])
-        allins = list(dict.fromkeys(ins + sents + sorted(muts) + ['z', 'az', 'za', 'y', 'ay']))
+        unk = ['x', 'ax', 'xa', 'w', 'aw', 'v', 'u'] if nT <= 20 else []
+        for s in sents[:8]:
+            if nT <= 20:
+                k = rnd.randrange(len(s) + 1)
+                unk.append(s[:k] + rnd.choice('xwvu') + s[k:])
+        allins = list(dict.fromkeys(ins + sents + sorted(muts) + ['z', 'az', 'za', 'y', 'ay'] + unk))
         jl = [('run', x) for x in allins]
         pool = allins[:60] + sents + ['y', 'ay']
         for _ in range(8 if gname.startswith('opt') else (3 if tier == 'quick' else 8)):
